@@ -9,6 +9,7 @@ import (
 	"math"
 	"reflect"
 	"sort"
+	"unsafe"
 
 	"github.com/blues/jsonata-go/jlib"
 	"github.com/blues/jsonata-go/jparse"
@@ -22,6 +23,8 @@ var typeInterfaceSlice = reflect.SliceOf(jtypes.TypeInterface)
 func eval(node jparse.Node, input reflect.Value, env *environment) (reflect.Value, error) {
 	var err error
 	var v reflect.Value
+
+	vpoint(vEval, nil)
 
 	switch node := node.(type) {
 	case *jparse.StringNode:
@@ -904,6 +907,7 @@ func evalFunctionCall(node *jparse.FunctionCallNode, data reflect.Value, env *en
 	// so that the name and context set below cannot be seen
 	// (or overwritten) by nested or concurrent calls.
 	if gc, ok := fn.(*goCallable); ok {
+		vpoint(vRead, unsafe.Pointer(&gc.context))
 		c := *gc
 		fn = &c
 	}
@@ -917,6 +921,8 @@ func evalFunctionCall(node *jparse.FunctionCallNode, data reflect.Value, env *en
 	if setter, ok := fn.(contextSetter); ok {
 		setter.SetContext(data)
 	}
+
+	vpoint(vRead, unsafe.Pointer(&node.Args))
 
 	argv := make([]reflect.Value, len(node.Args))
 	for i, arg := range node.Args {
@@ -942,6 +948,7 @@ func evalFunctionApplication(node *jparse.FunctionApplicationNode, data reflect.
 		// shared by every evaluation of this expression and
 		// must not be modified.
 		f = &jparse.FunctionCallNode{Func: f.Func, Args: f.Args}
+		vpoint(vWrite, unsafe.Pointer(&f.Args))
 		f.Args = append([]jparse.Node{node.LHS}, f.Args...)
 		return evalFunctionCall(f, data, env)
 	}
